@@ -1,5 +1,1364 @@
 import SradModel.Model.EonSpec
 
 namespace Srad.Eon.P04
+open Srad.Eon
+
+/-! ### the scanners as folds -/
+
+def ddNext (d : Nat) (st : DLife) : Obs → DLife
+  | .bNode => .none
+  | .call id .dbirth (some d') _ _ _ dec =>
+    if d' == d then (match dec with | .acc => .birthed | .rej => .none | .park => .pending id) else st
+  | .resolved id ok => if st == .pending id then (if ok then .birthed else .none) else st
+  | .call _ .ddeath (some d') _ _ _ _ => if d' == d then .dead else st
+  | _ => st
+
+def ddChk (d : Nat) (st : DLife) : Obs → Bool
+  | .call _ .ddata (some d') _ _ _ _ => if d' == d then st == .birthed else true
+  | _ => true
+
+theorem ddataOk_cons (d : Nat) (st : DLife) (o : Obs) (t : List Obs) :
+    ddataOk d st (o :: t) = (ddChk d st o && ddataOk d (ddNext d st o) t) := by
+  cases o with
+  | call id k dv sq bd tr dec =>
+    cases k <;> cases dv <;> simp [ddataOk, ddChk, ddNext]
+    all_goals (split <;> try simp_all)
+    all_goals (cases dec <;> rfl)
+  | resolved id ok => simp [ddataOk, ddChk, ddNext]; split <;> rfl
+  | _ => simp [ddataOk, ddChk, ddNext]
+
+def ddAfter (d : Nat) (st : DLife) (tr : List Obs) : DLife := tr.foldl (ddNext d) st
+
+theorem ddataOk_append (d : Nat) (a b : List Obs) : ∀ st,
+    ddataOk d st (a ++ b) = (ddataOk d st a && ddataOk d (ddAfter d st a) b) := by
+  induction a with
+  | nil => intro st; simp [ddataOk, ddAfter]
+  | cons o t ih => intro st; simp [ddataOk_cons, ih, ddAfter, Bool.and_assoc]
+
+def deNext (d : Nat) (last : Bool) : Obs → Bool
+  | .call _ .sub _ _ _ _ _ => false
+  | .call _ .dbirth (some d') _ _ _ _ => if d' == d then true else last
+  | .call _ .ddeath (some d') _ _ _ _ => if d' == d then false else last
+  | _ => last
+
+def deChk (d : Nat) (last : Bool) : Obs → Bool
+  | .call _ .ddeath (some d') _ _ _ _ => if d' == d then last else true
+  | _ => true
+
+theorem ddeathOk_cons (d : Nat) (last : Bool) (o : Obs) (t : List Obs) :
+    ddeathOk d last (o :: t) = (deChk d last o && ddeathOk d (deNext d last o) t) := by
+  cases o with
+  | call id k dv sq bd tr dec =>
+    cases k <;> cases dv <;> simp [ddeathOk, deChk, deNext]
+    all_goals (split <;> try simp_all)
+  | _ => simp [ddeathOk, deChk, deNext]
+
+def deAfter (d : Nat) (last : Bool) (tr : List Obs) : Bool := tr.foldl (deNext d) last
+
+theorem ddeathOk_append (d : Nat) (a b : List Obs) : ∀ st,
+    ddeathOk d st (a ++ b) = (ddeathOk d st a && ddeathOk d (deAfter d st a) b) := by
+  induction a with
+  | nil => intro st; simp [ddeathOk, deAfter]
+  | cons o t ih => intro st; simp [ddeathOk_cons, ih, deAfter, Bool.and_assoc]
+
+/-! ### device lists -/
+
+def UidOk (l : List Dev) : Prop := l.map (·.uid) = List.range l.length
+
+/-- the fields of a device the invariants talk about -/
+def core (x : Dev) : Nat × Nat × DevPc × Bool × Nat := (x.uid, x.name, x.pc, x.flag, x.epoch)
+
+theorem setDev_length (x : Dev) (l : List Dev) : (setDev x l).length = l.length := by
+  induction l with
+  | nil => rfl
+  | cons y t ih => simp only [setDev]; split <;> simp [ih]
+
+theorem setDev_map_uid (x : Dev) (l : List Dev) : (setDev x l).map (·.uid) = l.map (·.uid) := by
+  induction l with
+  | nil => rfl
+  | cons y t ih => simp only [setDev]; split <;> simp_all
+
+theorem setDev_setDev (x1 x2 : Dev) (l : List Dev) (h : x1.uid = x2.uid) :
+    setDev x2 (setDev x1 l) = setDev x2 l := by
+  induction l with
+  | nil => rfl
+  | cons y t ih =>
+    simp only [setDev]
+    by_cases hy : y.uid = x1.uid
+    · simp [hy, h, setDev]
+    · have hy2 : ¬ y.uid = x2.uid := by rw [← h]; exact hy
+      simp [hy, hy2, setDev, ih]
+
+theorem mem_setDev_weak (x y : Dev) (l : List Dev) (h : y ∈ setDev x l) : y = x ∨ y ∈ l := by
+  induction l with
+  | nil => simp [setDev] at h
+  | cons z t ih =>
+    simp only [setDev] at h
+    split at h
+    · simp at h; rcases h with h | h <;> simp [h]
+    · simp at h; rcases h with h | h
+      · simp [h]
+      · rcases ih h with h | h <;> simp [h]
+
+theorem mem_setDev (x y : Dev) (l : List Dev) (hn : (l.map (·.uid)).Nodup) (h : y ∈ setDev x l) :
+    y = x ∨ (y ∈ l ∧ y.uid ≠ x.uid) := by
+  induction l with
+  | nil => simp [setDev] at h
+  | cons z t ih =>
+    simp only [List.map_cons, List.nodup_cons, List.mem_map, not_exists, not_and] at hn
+    simp only [setDev] at h
+    split at h
+    · rename_i hz
+      simp at hz h
+      rcases h with h | h
+      · exact .inl h
+      · refine .inr ⟨by simp [h], fun hu => hn.1 y h (by rw [hu, hz])⟩
+    · rename_i hz
+      simp at hz h
+      rcases h with h | h
+      · subst h; exact .inr ⟨by simp, hz⟩
+      · rcases ih hn.2 h with h | h
+        · exact .inl h
+        · exact .inr ⟨by simp [h.1], h.2⟩
+
+theorem UidOk.nodup {l : List Dev} (h : UidOk l) : (l.map (·.uid)).Nodup := by
+  rw [h]; exact List.nodup_range
+
+theorem UidOk.setDev {l : List Dev} (h : UidOk l) (x : Dev) : UidOk (setDev x l) := by
+  simp [UidOk, setDev_map_uid, setDev_length]; exact h
+
+theorem UidOk.pushAll {l : List Dev} (h : UidOk l) (m : NS) : UidOk (pushAll m l) := by
+  unfold UidOk at *
+  simp only [Srad.Eon.pushAll, List.map_map, List.length_map]
+  rw [← h]; apply List.map_congr_left; intro a _; simp; split <;> rfl
+
+theorem UidOk.append {l : List Dev} (h : UidOk l) (x : Dev) (hx : x.uid = l.length) : UidOk (l ++ [x]) := by
+  unfold UidOk at *
+  simp [List.range_succ, h, hx]
+
+theorem findUid_some {u : Nat} {l : List Dev} {x : Dev} (h : findUid u l = some x) : x ∈ l ∧ x.uid = u := by
+  unfold findUid at h
+  have := List.find?_some h
+  exact ⟨List.mem_of_find?_eq_some h, by simpa using this⟩
+
+theorem findUid_setDev {u : Nat} {l : List Dev} {x x' : Dev} (h : findUid u l = some x) (hu : x'.uid = u) :
+    findUid u (setDev x' l) = some x' := by
+  induction l with
+  | nil => simp [findUid] at h
+  | cons y t ih =>
+    simp only [setDev]
+    by_cases hy : y.uid = u
+    · simp [hy, hu, findUid]
+    · have : ¬ y.uid = x'.uid := by rw [hu]; exact hy
+      have h' : findUid u t = some x := by simpa [findUid, List.find?_cons, hy] using h
+      simpa [this, findUid, List.find?_cons, hy] using ih h'
+
+theorem findReg_some {d : Nat} {l : List Dev} {x : Dev}
+    (h : l.find? (fun x => x.name == d && x.registered && x.pc != .done) = some x) :
+    x ∈ l ∧ x.name = d ∧ x.pc ≠ .done ∧ x.registered = true := by
+  have := List.find?_some h
+  simp at this
+  exact ⟨List.mem_of_find?_eq_some h, this.1.1, this.2, this.1.2⟩
+
+theorem findDev_some {d : Nat} {l : List Dev} {x : Dev} (h : findDev d l = some x) :
+    x ∈ l ∧ x.name = d ∧ x.pc ≠ .done := by
+  unfold findDev at h
+  split at h
+  · rename_i y hy
+    have := findReg_some hy
+    simp at h; subst h; exact ⟨this.1, this.2.1, this.2.2.1⟩
+  · have h1 := List.find?_some h
+    have h2 := List.mem_of_find?_eq_some h
+    simp at h1 h2
+    exact ⟨h2, h1.1, h1.2⟩
+
+/-- at most one live incarnation of name `d` -/
+def Uniq (d : Nat) (l : List Dev) : Prop := (l.filter fun x => x.name == d && x.pc != .done).length ≤ 1
+
+theorem Uniq.eq {d : Nat} {l : List Dev} (h : Uniq d l) {x y : Dev} (hx : x ∈ l) (hy : y ∈ l)
+    (hxd : x.name = d) (hyd : y.name = d) (hxp : x.pc ≠ .done) (hyp : y.pc ≠ .done) : x = y := by
+  unfold Uniq at h
+  have hx' : x ∈ l.filter fun x => x.name == d && x.pc != .done := by simp [hx, hxd, hxp]
+  have hy' : y ∈ l.filter fun x => x.name == d && x.pc != .done := by simp [hy, hyd, hyp]
+  generalize l.filter (fun x => x.name == d && x.pc != .done) = f at *
+  match f, h with
+  | [], _ => simp at hx'
+  | [a], _ => simp at hx' hy'; rw [hx', hy']
+  | _ :: _ :: _, h => simp at h
+
+/-- how a step that does not touch the cores changes the device list -/
+def DevsQ (l l' : List Dev) : Prop :=
+  l' = l ∨ (∃ x x', x ∈ l ∧ core x' = core x ∧ l' = setDev x' l) ∨ ∃ m, l' = pushAll m l
+
+theorem DevsQ.uidOk {l l' : List Dev} (h : DevsQ l l') (hu : UidOk l) : UidOk l' := by
+  rcases h with h | ⟨x, x', _, _, h⟩ | ⟨m, h⟩
+  · rw [h]; exact hu
+  · rw [h]; exact hu.setDev _
+  · rw [h]; exact hu.pushAll _
+
+theorem DevsQ.rel {l l' : List Dev} (h : DevsQ l l') {y' : Dev} (hy : y' ∈ l') : ∃ y ∈ l, core y = core y' := by
+  rcases h with h | ⟨x, x', hx, hc, h⟩ | ⟨m, h⟩
+  · rw [h] at hy; exact ⟨y', hy, rfl⟩
+  · rw [h] at hy
+    rcases mem_setDev_weak _ _ _ hy with h1 | h1
+    · exact ⟨x, hx, by rw [h1, hc]⟩
+    · exact ⟨y', h1, rfl⟩
+  · rw [h] at hy
+    simp only [pushAll, List.mem_map] at hy
+    obtain ⟨y, hy1, hy2⟩ := hy
+    refine ⟨y, hy1, ?_⟩
+    rw [← hy2]; split <;> rfl
+
+/-! ### what each kind of step does to the fields the invariants mention -/
+
+/-- observations neither scanner looks at -/
+def inert : Obs → Bool
+  | .call .. | .resolved .. | .bNode => false
+  | _ => true
+
+def NodeSame (s s' : St) : Prop :=
+  s'.epoch = s.epoch ∧ s'.birthed = s.birthed ∧ s'.online = s.online ∧ s'.node = s.node
+
+def Quiet (s s' : St) (o : List Obs) : Prop :=
+  NodeSame s s' ∧ s'.calls = s.calls ∧ DevsQ s.devs s'.devs ∧ ∀ ob ∈ o, inert ob = true
+
+theorem loopHandle_eff (s : St) (e : Ev) : Quiet s (loopHandle s e) [] := by
+  unfold loopHandle
+  cases e with
+  | dcmd d ts =>
+    simp only
+    split
+    · rename_i x hx
+      refine ⟨⟨rfl, rfl, rfl, rfl⟩, rfl, .inr (.inl ⟨x, _, (findReg_some hx).1, ?_, rfl⟩), by simp⟩
+      rfl
+    · exact ⟨⟨rfl, rfl, rfl, rfl⟩, rfl, .inl rfl, by simp⟩
+  | _ =>
+    simp only [newOneshot]
+    (try split) <;> exact ⟨⟨rfl, rfl, rfl, rfl⟩, rfl, .inl rfl, by simp⟩
+
+theorem stepLoopTimeout_eff {s s' : St} {o : List Obs} (h : (s', o) ∈ stepLoopTimeout s) : Quiet s s' o := by
+  unfold stepLoopTimeout at h
+  simp only [newOneshot] at h
+  repeat' split at h
+  all_goals simp at h
+  all_goals (obtain ⟨rfl, rfl⟩ := h)
+  all_goals exact ⟨⟨rfl, rfl, rfl, rfl⟩, rfl, .inl rfl, by simp [inert]⟩
+
+theorem quiet_triv {s s' : St} {o : List Obs} (h1 : s'.epoch = s.epoch) (h2 : s'.birthed = s.birthed)
+    (h3 : s'.online = s.online) (h4 : s'.node = s.node) (h5 : s'.calls = s.calls) (h6 : s'.devs = s.devs)
+    (h7 : ∀ ob ∈ o, inert ob = true) : Quiet s s' o :=
+  ⟨⟨h1, h2, h3, h4⟩, h5, .inl h6, h7⟩
+
+theorem stepLoop_eff {s s' : St} {o : List Obs} (h : (s', o) ∈ stepLoop s) : Quiet s s' o := by
+  unfold stepLoop at h
+  simp only [newOneshot] at h
+  split at h
+  case h_3 =>
+    -- polling
+    simp only [List.mem_append] at h
+    rcases h with h | h
+    · split at h
+      · simp at h; obtain ⟨rfl, rfl⟩ := h
+        exact quiet_triv rfl rfl rfl rfl rfl rfl (by simp)
+      · simp at h
+    · split at h
+      · rename_i e rest _
+        simp at h; obtain ⟨rfl, rfl⟩ := h
+        have := loopHandle_eff { s with inbox := rest } e
+        exact ⟨this.1, this.2.1, this.2.2.1, by simp [inert]⟩
+      · simp at h
+  case h_2 =>
+    simp at h
+    rcases h with ⟨-, rfl, rfl⟩ | ⟨rfl, rfl⟩ <;> exact quiet_triv rfl rfl rfl rfl rfl rfl (by simp [inert])
+  all_goals
+    (repeat' split at h)
+    all_goals simp at h
+    all_goals (obtain ⟨rfl, rfl⟩ := h)
+    all_goals exact quiet_triv rfl rfl rfl rfl rfl rfl (by simp [inert])
+
+def StimEff (s s' : St) (o : List Obs) : Prop :=
+  Quiet s s' o ∨
+  (NodeSame s s' ∧ s'.calls = s.calls ∧ o = [] ∧ ∃ d', s'.devs = s.devs ++ [{ uid := s.devs.length, name := d' }]) ∨
+  (NodeSame s s' ∧ s'.devs = s.devs ∧ ∃ id ok c, s.calls[id]? = some c ∧ c.res = none ∧
+    s'.calls = s.calls.set id { c with res := some ok } ∧ o = [.resolved id ok])
+
+theorem quiet_setDev {s s' : St} {o : List Obs} {x x' : Dev} (h1 : s'.epoch = s.epoch) (h2 : s'.birthed = s.birthed)
+    (h3 : s'.online = s.online) (h4 : s'.node = s.node) (h5 : s'.calls = s.calls)
+    (hx : x ∈ s.devs) (h6 : s'.devs = setDev x' s.devs) (hc : core x' = core x)
+    (h7 : ∀ ob ∈ o, inert ob = true) : Quiet s s' o :=
+  ⟨⟨h1, h2, h3, h4⟩, h5, .inr (.inl ⟨x, x', hx, hc, h6⟩), h7⟩
+
+theorem applyStim_eff (s : St) (x : Stim) : StimEff s (applyStim s x).1 (applyStim s x).2 := by
+  cases x with
+  | reg d =>
+    simp only [applyStim]
+    split
+    · exact .inl (quiet_triv rfl rfl rfl rfl rfl rfl (by simp))
+    · exact .inr (.inl ⟨⟨rfl, rfl, rfl, rfl⟩, rfl, rfl, d, rfl⟩)
+  | unreg d =>
+    simp only [applyStim]
+    split
+    · rename_i x hx
+      exact .inl (quiet_setDev rfl rfl rfl rfl rfl (findReg_some hx).1 rfl rfl (by simp))
+    · exact .inl (quiet_triv rfl rfl rfl rfl rfl rfl (by simp))
+  | enable d =>
+    simp only [applyStim]
+    split
+    · rename_i x hx
+      exact .inl (quiet_setDev rfl rfl rfl rfl rfl (findDev_some hx).1 rfl rfl (by simp))
+    · exact .inl (quiet_triv rfl rfl rfl rfl rfl rfl (by simp))
+  | disable d =>
+    simp only [applyStim]
+    split
+    · rename_i x hx
+      exact .inl (quiet_setDev rfl rfl rfl rfl rfl (findDev_some hx).1 rfl rfl (by simp))
+    · exact .inl (quiet_triv rfl rfl rfl rfl rfl rfl (by simp))
+  | drebirth d =>
+    simp only [applyStim]
+    split
+    · rename_i x hx
+      exact .inl (quiet_setDev rfl rfl rfl rfl rfl (findDev_some hx).1 rfl rfl (by simp))
+    · exact .inl (quiet_triv rfl rfl rfl rfl rfl rfl (by simp))
+  | resolve id ok =>
+    simp only [applyStim]
+    split
+    · rename_i c hc
+      split
+      · rename_i hr
+        refine .inr (.inr ⟨⟨rfl, rfl, rfl, rfl⟩, rfl, id, ok, c, hc, ?_, rfl, rfl⟩)
+        simpa using hr
+      · exact .inl (quiet_triv rfl rfl rfl rfl rfl rfl (by simp))
+    · exact .inl (quiet_triv rfl rfl rfl rfl rfl rfl (by simp))
+  | cbPark t on =>
+    simp only [applyStim]
+    repeat' split
+    all_goals exact .inl (quiet_triv rfl rfl rfl rfl rfl rfl (by simp))
+  | _ => exact .inl (quiet_triv rfl rfl rfl rfl rfl rfl (by simp [applyStim]))
+
+def isNb : NodePc → Bool
+  | .waitNb .. | .nbDone .. => true
+  | _ => false
+
+def active : NodePc → Bool
+  | .idle | .inCb _ | .done => false
+  | _ => true
+
+/-- no SUB since the last node birth started -/
+def live (s : St) : Bool := s.birthed || isNb s.node
+
+def NodeEff (s s' : St) (o : List Obs) : Prop :=
+  (s'.epoch = s.epoch ∧ s'.birthed = s.birthed ∧ s'.online = s.online ∧ s'.calls = s.calls ∧ s'.devs = s.devs ∧
+    (∀ ob ∈ o, inert ob = true) ∧ (isNb s'.node = true → isNb s.node = true) ∧
+    (active s'.node = true → active s.node = true ∨ s.birthed = true)) ∨
+  (s.online = false ∧ s.node = .idle ∧ s'.online = true ∧ s'.birthed = s.birthed ∧ s'.epoch = s.epoch ∧
+    s'.devs = s.devs ∧ isNb s'.node = false ∧
+    ∃ c dc, s'.calls = s.calls ++ [c] ∧ o = [.call s.calls.length .sub none none none false dc]) ∨
+  (s'.node = .idle ∧ s'.online = false ∧ s'.birthed = false ∧ s'.epoch = s.epoch ∧ s'.calls = s.calls ∧
+    s'.devs = pushAll .death s.devs ∧ o = []) ∨
+  (active s.node = true ∧ s'.epoch = s.epoch + 1 ∧ s'.birthed = false ∧ s'.online = s.online ∧ s'.devs = s.devs ∧
+    isNb s'.node = true ∧
+    ∃ c bd dc, s'.calls = s.calls ++ [c] ∧ o = [.bNode, .call s.calls.length .nbirth none (some 0) (some bd) false dc]) ∨
+  (isNb s.node = true ∧ s'.node = .idle ∧ s'.epoch = s.epoch ∧ s'.online = s.online ∧ s'.calls = s.calls ∧
+    DevsQ s.devs s'.devs ∧ o = [])
+
+theorem stepNode_eff {s s' : St} {o : List Obs} {dec : Dec} (h : (s', o) ∈ stepNode s dec) : NodeEff s s' o := by
+  unfold stepNode at h
+  split at h
+  case h_1 hn =>
+    split at h
+    · -- cs = online
+      simp only at h
+      split at h
+      · simp at h; obtain ⟨rfl, rfl⟩ := h
+        exact .inl (by simp [hn, isNb, active])
+      · split at h
+        · rename_i ho
+          simp at h; obtain ⟨rfl, rfl⟩ := h
+          exact .inl (by simp [hn, isNb, active, ho])
+        · rename_i ho
+          simp only [handOver] at h
+          split at h
+          · simp at h; obtain ⟨rfl, rfl⟩ := h
+            refine .inr (.inl ?_)
+            simp [hn, isNb] ; simpa using ho
+          · simp at h; obtain ⟨rfl, rfl⟩ := h
+            refine .inr (.inl ?_)
+            simp [hn, isNb] ; simpa using ho
+    · -- cs = offline
+      simp only at h
+      split at h
+      · simp at h; obtain ⟨rfl, rfl⟩ := h
+        exact .inl (by simp [hn, isNb, active])
+      · simp at h; obtain ⟨rfl, rfl⟩ := h
+        exact .inr (.inr (.inl (by simp [hn])))
+    · simp at h; obtain ⟨rfl, rfl⟩ := h
+      exact .inl (by simp [isNb, active])
+    · simp only at h
+      repeat' split at h
+      all_goals simp at h
+      all_goals (obtain ⟨rfl, rfl⟩ := h)
+      all_goals exact .inl (by simp_all [isNb, active, inert])
+  case h_2 hn =>
+    split at h
+    · simp at h; obtain ⟨rfl, rfl⟩ := h
+      exact .inl (by simp [hn, isNb, active])
+    · simp at h
+  case h_3 hn =>
+    split at h
+    all_goals simp at h
+    all_goals (obtain ⟨rfl, rfl⟩ := h)
+    all_goals exact .inl (by simp [hn, isNb, active])
+  case h_4 hn =>
+    simp only [nodeBirthStart, handOver] at h
+    split at h
+    all_goals simp at h
+    all_goals (obtain ⟨rfl, rfl⟩ := h)
+    all_goals exact .inr (.inr (.inr (.inl (by simp [hn, isNb, active]))))
+  case h_5 hn =>
+    split at h
+    · simp at h; obtain ⟨rfl, rfl⟩ := h
+      exact .inl (by simp [hn, isNb, active])
+    · simp at h
+  case h_6 hn =>
+    simp at h; obtain ⟨rfl, rfl⟩ := h
+    refine .inr (.inr (.inr (.inr ?_)))
+    simp only [hn, isNb, true_and]
+    split <;> split <;> simp [DevsQ]
+    all_goals exact .inr (.inr ⟨_, rfl⟩)
+  case h_7 hn =>
+    repeat' split at h
+    all_goals simp at h
+    all_goals (obtain ⟨rfl, rfl⟩ := h)
+    all_goals exact .inl (by simp_all [isNb, active, inert])
+  case h_8 hn => simp at h
+
+theorem nextSeqIn_ok {s s1 : St} {req : Option Nat} {n : Nat} (h : nextSeqIn s req = .ok (s1, n)) :
+    s.online = true ∧ s.birthed = true ∧ (∀ e, req = some e → e = s.epoch) ∧ s1 = { s with seq := n } := by
+  unfold nextSeqIn at h
+  cases hon : s.online <;> cases hb : s.birthed <;> simp [hon, hb] at h
+  cases req with
+  | none => simp at h; obtain ⟨rfl, rfl⟩ := h; simp [← hon]
+  | some e =>
+    by_cases he : e = s.epoch
+    · simp [he] at h
+      obtain ⟨rfl, rfl⟩ := h
+      simp [← hon, he]
+    · simp [he] at h
+
+def UObs (s : St) (ob : Obs) : Prop :=
+  inert ob = true ∨
+  (∃ id k sq bd t dc, ob = .call id k none sq bd t dc ∧ k ≠ .sub) ∨
+  (∃ id d' x sq bd t dc, ob = .call id .ddata (some d') sq bd t dc ∧ findDev d' s.devs = some x ∧
+    x.flag = true ∧ x.epoch = s.epoch ∧ s.online = true ∧ s.birthed = true)
+
+theorem stepUser_eff {s s' : St} {o : List Obs} {j : Nat} {dec : Dec} (h : (s', o) ∈ stepUser s j dec) :
+    NodeSame s s' ∧ s'.devs = s.devs ∧ (∃ cs, s'.calls = s.calls ++ cs) ∧ ∀ ob ∈ o, UObs s ob := by
+  unfold stepUser at h
+  split at h
+  · simp at h
+  rename_i u hu
+  simp only at h
+  split at h
+  · -- pub, start
+    rename_i t isTry n _ _
+    split at h
+    · simp at h; obtain ⟨rfl, rfl⟩ := h
+      exact ⟨⟨rfl, rfl, rfl, rfl⟩, rfl, ⟨[], by simp⟩, by simp [UObs, inert]⟩
+    · cases t with
+      | node =>
+        simp only [nextSeq] at h
+        cases hq : nextSeqIn s none with
+        | error e =>
+          simp [hq, Except.map] at h; obtain ⟨rfl, rfl⟩ := h
+          exact ⟨⟨rfl, rfl, rfl, rfl⟩, rfl, ⟨[], by simp⟩, by simp [UObs, inert]⟩
+        | ok r =>
+          obtain ⟨s1, k⟩ := r
+          obtain ⟨-, -, -, rfl⟩ := nextSeqIn_ok hq
+          simp only [hq, Except.map, handOver] at h
+          split at h
+          all_goals simp only [List.mem_singleton, Prod.mk.injEq] at h
+          all_goals (obtain ⟨rfl, rfl⟩ := h)
+          all_goals refine ⟨⟨rfl, rfl, rfl, rfl⟩, rfl, ⟨[_], rfl⟩, ?_⟩
+          all_goals intro ob hob
+          all_goals simp only [List.mem_append, List.mem_cons, List.not_mem_nil, or_false] at hob
+          all_goals first
+            | (rcases hob with rfl | rfl
+               · exact .inr (.inl ⟨_, _, _, _, _, _, rfl, by decide⟩)
+               · exact .inl rfl)
+            | (subst hob; exact .inr (.inl ⟨_, _, _, _, _, _, rfl, by decide⟩))
+      | dev d =>
+        simp only at h
+        cases hf : findDev d s.devs with
+        | none =>
+          simp [hf] at h; obtain ⟨rfl, rfl⟩ := h
+          exact ⟨⟨rfl, rfl, rfl, rfl⟩, rfl, ⟨[], by simp⟩, by simp [UObs, inert]⟩
+        | some x =>
+          simp only [hf] at h
+          cases hfl : x.flag with
+          | false =>
+            simp [hfl] at h; obtain ⟨rfl, rfl⟩ := h
+            exact ⟨⟨rfl, rfl, rfl, rfl⟩, rfl, ⟨[], by simp⟩, by simp [UObs, inert]⟩
+          | true =>
+            cases hq : nextSeqIn s (some x.epoch) with
+            | error e =>
+              simp [hfl, hq, Except.map] at h; obtain ⟨rfl, rfl⟩ := h
+              exact ⟨⟨rfl, rfl, rfl, rfl⟩, rfl, ⟨[], by simp⟩, by simp [UObs, inert]⟩
+            | ok r =>
+              obtain ⟨s1, k⟩ := r
+              obtain ⟨hon, hb, hep, rfl⟩ := nextSeqIn_ok hq
+              have hep := hep _ rfl
+              simp [hfl, hq, Except.map, handOver] at h
+              split at h
+              all_goals simp only [List.mem_singleton, Prod.mk.injEq] at h
+              all_goals (obtain ⟨rfl, rfl⟩ := h)
+              all_goals refine ⟨⟨rfl, rfl, rfl, rfl⟩, rfl, ⟨[_], rfl⟩, ?_⟩
+              all_goals intro ob hob
+              all_goals simp only [List.mem_cons, List.not_mem_nil, or_false] at hob
+              all_goals first
+                | (rcases hob with rfl | rfl
+                   · exact .inr (.inr ⟨_, _, _, _, _, _, _, rfl, hf, hfl, hep, hon, hb⟩)
+                   · exact .inl rfl)
+                | (subst hob; exact .inr (.inr ⟨_, _, _, _, _, _, _, rfl, hf, hfl, hep, hon, hb⟩))
+  · -- pub, wait
+    split at h
+    all_goals simp at h
+    all_goals (obtain ⟨rfl, rfl⟩ := h)
+    all_goals exact ⟨⟨rfl, rfl, rfl, rfl⟩, rfl, ⟨[], by simp⟩, by simp [UObs, inert]⟩
+  · -- cancel, start
+    split at h
+    · simp at h; obtain ⟨rfl, rfl⟩ := h
+      exact ⟨⟨rfl, rfl, rfl, rfl⟩, rfl, ⟨[], by simp⟩, by simp [UObs, inert]⟩
+    · simp [handOver] at h; obtain ⟨rfl, rfl⟩ := h
+      refine ⟨⟨rfl, rfl, rfl, rfl⟩, rfl, ⟨[_], rfl⟩, ?_⟩
+      intro ob hob
+      simp only [List.mem_cons, List.not_mem_nil, or_false] at hob
+      subst hob; exact .inr (.inl ⟨_, _, _, _, _, _, rfl, by decide⟩)
+  · -- cancelStop
+    repeat' split at h
+    all_goals simp at h
+    all_goals (obtain ⟨rfl, rfl⟩ := h)
+    all_goals exact ⟨⟨rfl, rfl, rfl, rfl⟩, rfl, ⟨[], by simp⟩, by simp [UObs, inert]⟩
+  · -- cancelDisc
+    simp [handOver] at h; obtain ⟨rfl, rfl⟩ := h
+    refine ⟨⟨rfl, rfl, rfl, rfl⟩, rfl, ⟨[_], rfl⟩, ?_⟩
+    intro ob hob
+    simp only [List.mem_cons, List.not_mem_nil, or_false] at hob
+    rcases hob with rfl | rfl
+    · exact .inr (.inl ⟨_, _, _, _, _, _, rfl, by decide⟩)
+    · exact .inl rfl
+  · simp at h
+
+def decRes : Dec → Option Bool
+  | .acc => some true | .rej => some false | .park => none
+
+def birthPc (dec : Dec) (id ep : Nat) : DevPc :=
+  match dec with
+  | .acc => .birthDone true ep | .rej => .birthDone false ep | .park => .waitBirth id ep
+
+/-- the five shapes of a device-task step (`x` before, `x'` after) -/
+def DevEff (s : St) (x : Dev) (s' : St) (x' : Dev) (o : List Obs) (dec : Dec) : Prop :=
+  (s'.calls = s.calls ∧ (∀ ob ∈ o, inert ob = true) ∧ (x'.flag = true → x.flag = true) ∧ x'.epoch = x.epoch ∧
+    (x'.pc = .idle ∨ x'.pc = .inCb ∨ x'.pc = .done)) ∨
+  (s.online = true ∧ s.birthed = true ∧ x'.enabled = true ∧ x'.registered = true ∧ x'.flag = false ∧
+    x'.epoch = x.epoch ∧ x'.pc = birthPc dec s.calls.length s.epoch ∧
+    ∃ c n, s'.calls = s.calls ++ [c] ∧ c.res = decRes dec ∧
+      o = [.bDev x.name, .call s.calls.length .dbirth (some x.name) (some n) none false dec]) ∨
+  (x.flag = true ∧ x.epoch = s.epoch ∧ s.online = true ∧ s.birthed = true ∧ x'.flag = false ∧ x'.epoch = x.epoch ∧
+    (x'.pc = .idle ∨ x'.pc = .done ∨ ∃ id td, x'.pc = .waitDeath id td) ∧
+    ∃ c n, s'.calls = s.calls ++ [c] ∧ o = [.call s.calls.length .ddeath (some x.name) (some n) none false dec]) ∨
+  (∃ id ep ok, x.pc = .waitBirth id ep ∧ callRes s id = some ok ∧ x'.pc = .birthDone ok ep ∧ x'.flag = x.flag ∧
+    x'.epoch = x.epoch ∧ s'.calls = s.calls ∧ o = []) ∨
+  (∃ ok ep, x.pc = .birthDone ok ep ∧ x'.pc = .idle ∧
+    (if ok = true then x'.flag = true ∧ x'.epoch = ep else x'.flag = x.flag ∧ x'.epoch = x.epoch) ∧
+    s'.calls = s.calls ∧ o = [])
+
+theorem devBirth_eff (s : St) (x : Dev) (bt : BT) (req : Option Nat) (dec : Dec) (l : List Dev)
+    (hd : s.devs = setDev x l) (hpc : x.pc = .idle) :
+    ∃ x', (devBirth s x bt req dec).1.devs = setDev x' l ∧ x'.uid = x.uid ∧ x'.name = x.name ∧
+      x'.registered = x.registered ∧ NodeSame s (devBirth s x bt req dec).1 ∧
+      DevEff s x (devBirth s x bt req dec).1 x' (devBirth s x bt req dec).2 dec := by
+  have quiet : ∀ s, s.devs = setDev x l → ∃ x', (s, ([] : List Obs)).1.devs = setDev x' l ∧ x'.uid = x.uid ∧ x'.name = x.name ∧
+      x'.registered = x.registered ∧ NodeSame s (s, ([] : List Obs)).1 ∧ DevEff s x (s, ([] : List Obs)).1 x' (s, ([] : List Obs)).2 dec :=
+    fun s hd => ⟨x, hd, rfl, rfl, rfl, ⟨rfl, rfl, rfl, rfl⟩, .inl ⟨rfl, by simp, id, rfl, .inl hpc⟩⟩
+  unfold devBirth
+  split
+  · exact quiet s hd
+  split
+  · exact quiet s hd
+  rename_i hen _
+  cases hq : nextSeqIn s req with
+  | error e => exact quiet s hd
+  | ok r =>
+    obtain ⟨s1, n⟩ := r
+    obtain ⟨hon, hb, -, rfl⟩ := nextSeqIn_ok hq
+    simp only [handOver, Bool.false_and, Bool.false_eq_true, if_false]
+    simp at hen
+    refine ⟨{ x with flag := false, pc := birthPc dec s.calls.length s.epoch }, ?_, rfl, rfl, rfl, ?_, .inr (.inl ?_)⟩
+    · cases dec <;> simp [callRes, hd, setDev_setDev, birthPc]
+    · cases dec <;> simp [callRes, NodeSame]
+    · cases dec <;> simp [callRes, hon, hb, hen, birthPc, decRes]
+
+theorem devDeath_eff (s : St) (x : Dev) (pub thenDone : Bool) (dec : Dec) (l : List Dev)
+    (hd : s.devs = setDev x l) :
+    ∃ x', (devDeath s x pub thenDone dec).1.devs = setDev x' l ∧ x'.uid = x.uid ∧ x'.name = x.name ∧
+      x'.registered = x.registered ∧ NodeSame s (devDeath s x pub thenDone dec).1 ∧
+      DevEff s x (devDeath s x pub thenDone dec).1 x' (devDeath s x pub thenDone dec).2 dec := by
+  have hfin : ∀ b : Bool, (if b = true then DevPc.done else DevPc.idle) = .idle ∨
+      (if b = true then DevPc.done else DevPc.idle) = .inCb ∨ (if b = true then DevPc.done else DevPc.idle) = .done := by
+    intro b; cases b <;> simp
+  unfold devDeath
+  simp only
+  split
+  · refine ⟨{ x with pc := if thenDone then .done else .idle }, ?_, rfl, rfl, rfl, ⟨rfl, rfl, rfl, rfl⟩, .inl ?_⟩
+    · simp [hd, setDev_setDev]
+    · exact ⟨rfl, by simp, id, rfl, hfin _⟩
+  rename_i hfl
+  simp at hfl
+  split
+  · refine ⟨{ x with flag := false, pc := if thenDone then .done else .idle }, ?_, rfl, rfl, rfl, ⟨rfl, rfl, rfl, rfl⟩, .inl ?_⟩
+    · simp [hd, setDev_setDev]
+    · exact ⟨rfl, by simp, by simp, rfl, hfin _⟩
+  cases hq : nextSeqIn s (some x.epoch) with
+  | error e =>
+    refine ⟨{ x with flag := false, pc := if thenDone then .done else .idle }, ?_, rfl, rfl, rfl, ⟨rfl, rfl, rfl, rfl⟩, .inl ?_⟩
+    · simp [hd, setDev_setDev]
+    · exact ⟨rfl, by simp, by simp, rfl, hfin _⟩
+  | ok r =>
+    obtain ⟨s1, n⟩ := r
+    obtain ⟨hon, hb, hep, rfl⟩ := nextSeqIn_ok hq
+    have hep := hep _ rfl
+    simp only [handOver, Bool.false_and, Bool.false_eq_true, if_false]
+    refine ⟨{ x with flag := false, pc := match dec with | .park => .waitDeath s.calls.length thenDone | _ => if thenDone then .done else .idle }, ?_, rfl, rfl, rfl, ?_, .inr (.inr (.inl ?_))⟩
+    · cases dec <;> simp [callRes, hd, setDev_setDev]
+    · cases dec <;> simp [callRes, NodeSame]
+    · cases dec <;> cases thenDone <;> simp [callRes, hon, hb, hep, hfl]
+
+theorem stepDev_eff {s s' : St} {o : List Obs} {u : Nat} {dec : Dec} (h : (s', o) ∈ stepDev s u dec) :
+    ∃ x x', findUid u s.devs = some x ∧ x.pc ≠ .done ∧ s'.devs = setDev x' s.devs ∧ x'.uid = x.uid ∧
+      x'.name = x.name ∧ x'.registered = x.registered ∧ NodeSame s s' ∧ DevEff s x s' x' o dec := by
+  unfold stepDev at h
+  split at h
+  · simp at h
+  rename_i x hx
+  simp only at h
+  split at h
+  case h_1 hpc =>
+    -- idle
+    split at h
+    · rename_i m rest hn
+      cases m with
+      | birth bt ep =>
+        simp only [List.mem_singleton] at h
+        obtain ⟨x', h1, h2, h3, h4, h5, h6⟩ := devBirth_eff { s with devs := setDev { x with nsq := rest } s.devs }
+          { x with nsq := rest } bt (some ep) dec s.devs rfl hpc
+        rw [← h] at h1 h5 h6
+        exact ⟨x, x', hx, by simp [hpc], h1, h2, h3, h4, h5, h6⟩
+      | death =>
+        simp only [List.mem_singleton] at h
+        obtain ⟨x', h1, h2, h3, h4, h5, h6⟩ := devDeath_eff { s with devs := setDev { x with nsq := rest } s.devs }
+          { x with nsq := rest } false false dec s.devs rfl
+        rw [← h] at h1 h5 h6
+        exact ⟨x, x', hx, by simp [hpc], h1, h2, h3, h4, h5, h6⟩
+      | removed =>
+        simp only [List.mem_singleton] at h
+        obtain ⟨x', h1, h2, h3, h4, h5, h6⟩ := devDeath_eff { s with devs := setDev { x with nsq := rest } s.devs }
+          { x with nsq := rest } true true dec s.devs rfl
+        rw [← h] at h1 h5 h6
+        exact ⟨x, x', hx, by simp [hpc], h1, h2, h3, h4, h5, h6⟩
+    · split at h
+      · rename_i r rest hh
+        cases r with
+        | enable =>
+          simp only [List.mem_singleton] at h
+          obtain ⟨x', h1, h2, h3, h4, h5, h6⟩ := devBirth_eff { s with devs := setDev { x with hq := rest, enabled := true } s.devs }
+            { x with hq := rest, enabled := true } .birth none dec s.devs rfl hpc
+          rw [← h] at h1 h5 h6
+          exact ⟨x, x', hx, by simp [hpc], h1, h2, h3, h4, h5, h6⟩
+        | disable =>
+          simp only [List.mem_singleton] at h
+          obtain ⟨x', h1, h2, h3, h4, h5, h6⟩ := devDeath_eff { s with devs := setDev { x with hq := rest, enabled := false } s.devs }
+            { x with hq := rest, enabled := false } true false dec s.devs rfl
+          rw [← h] at h1 h5 h6
+          exact ⟨x, x', hx, by simp [hpc], h1, h2, h3, h4, h5, h6⟩
+        | rebirth =>
+          simp only [List.mem_singleton] at h
+          obtain ⟨x', h1, h2, h3, h4, h5, h6⟩ := devBirth_eff { s with devs := setDev { x with hq := rest } s.devs }
+            { x with hq := rest } .rebirth none dec s.devs rfl hpc
+          rw [← h] at h1 h5 h6
+          exact ⟨x, x', hx, by simp [hpc], h1, h2, h3, h4, h5, h6⟩
+      · split at h
+        · split at h
+          all_goals simp only [List.mem_singleton, Prod.mk.injEq] at h
+          all_goals (obtain ⟨rfl, rfl⟩ := h)
+          all_goals refine ⟨x, _, hx, by simp [hpc], rfl, rfl, rfl, rfl, ⟨rfl, rfl, rfl, rfl⟩, .inl ⟨rfl, by simp [inert], id, rfl, ?_⟩⟩
+          all_goals simp [hpc]
+        · simp at h
+  case h_2 id ep hpc =>
+    split at h
+    · rename_i ok hr
+      simp only [List.mem_singleton, Prod.mk.injEq] at h
+      obtain ⟨rfl, rfl⟩ := h
+      exact ⟨x, _, hx, by simp [hpc], rfl, rfl, rfl, rfl, ⟨rfl, rfl, rfl, rfl⟩,
+        .inr (.inr (.inr (.inl ⟨id, ep, ok, hpc, hr, rfl, rfl, rfl, rfl, rfl⟩)))⟩
+    · simp at h
+  case h_3 ok ep hpc =>
+    simp only [List.mem_singleton, Prod.mk.injEq] at h
+    obtain ⟨rfl, rfl⟩ := h
+    refine ⟨x, _, hx, by simp [hpc], rfl, ?_, ?_, ?_, ⟨rfl, rfl, rfl, rfl⟩,
+        .inr (.inr (.inr (.inr ⟨ok, ep, hpc, ?_, ?_, rfl, rfl⟩)))⟩
+    all_goals cases ok <;> simp
+  case h_4 cid td hpc =>
+    split at h
+    · simp only [List.mem_singleton, Prod.mk.injEq] at h
+      obtain ⟨rfl, rfl⟩ := h
+      refine ⟨x, _, hx, by simp [hpc], rfl, rfl, rfl, rfl, ⟨rfl, rfl, rfl, rfl⟩, .inl ⟨rfl, by simp, id, rfl, ?_⟩⟩
+      cases td <;> simp
+    · simp at h
+  case h_5 hpc =>
+    split at h
+    · simp at h
+    · simp only [List.mem_singleton, Prod.mk.injEq] at h
+      obtain ⟨rfl, rfl⟩ := h
+      exact ⟨x, _, hx, by simp [hpc], rfl, rfl, rfl, rfl, ⟨rfl, rfl, rfl, rfl⟩, .inl ⟨rfl, by simp, id, rfl, .inl rfl⟩⟩
+  case h_6 hpc => simp at h
+
+theorem dbirth_only_enabled_registered (s s' : St) (u : Nat) (dec : Dec) (k : Nat) (o : List Obs)
+    (id : Nat) (d : Option Nat) (sq bd : Option Nat) (t : Bool) (dc : Dec)
+    (h : (step s (.dev u) dec)[k]? = some (s', o)) (hc : Obs.call id .dbirth d sq bd t dc ∈ o) :
+    ∃ x x', findUid u s.devs = some x ∧ findUid u s'.devs = some x' ∧ d = some x.name ∧
+      x'.enabled = true ∧ x.registered = true ∧ s.online = true ∧ s.birthed = true := by
+  have hm : (s', o) ∈ stepDev s u dec := List.mem_of_getElem? h
+  obtain ⟨x, x', hx, -, hd, hu, hn, hr, -, he⟩ := stepDev_eff hm
+  have hxu := (findUid_some hx).2
+  refine ⟨x, x', hx, by rw [hd]; exact findUid_setDev hx (by rw [hu, hxu]), ?_⟩
+  rcases he with ⟨-, hi, -⟩ | ⟨hon, hb, hen, hreg, -, -, -, c, n, -, -, rfl⟩ | ⟨-, -, -, -, -, -, -, c, n, -, rfl⟩ |
+    ⟨_, _, _, -, -, -, -, -, -, rfl⟩ | ⟨_, _, -, -, -, -, rfl⟩
+  · have := hi _ hc; simp [inert] at this
+  · simp at hc
+    exact ⟨hc.2.1, hen, by rw [← hr]; exact hreg, hon, hb⟩
+  · simp at hc
+  · simp at hc
+  · simp at hc
+
+theorem enable_births (s : St) (u : Nat) (dec : Dec) (x : Dev) (rest : List HR)
+    (hx : findUid u s.devs = some x) (hpc : x.pc = .idle) (hq : x.nsq = []) (hh : x.hq = .enable :: rest)
+    (hreg : x.registered = true) (hfl : x.flag = false) (hon : s.online = true) (hb : s.birthed = true) :
+    ∃ s' id dc, step s (.dev u) dec = [(s', [.bDev x.name,
+        .call id .dbirth (some x.name) (some ((s.seq + 1) % 256)) none false dc])] := by
+  simp only [step, stepDev, hx, hpc, hq, hh, devBirth, nextSeqIn, handOver]
+  simp [hreg, hfl, hon, hb]
+  cases dec <;> simp [callRes]
+
+/-! ### all steps -/
+
+def StepEff (s s' : St) (o : List Obs) : Prop :=
+  StimEff s s' o ∨ NodeEff s s' o ∨
+  (∃ u dec x x', findUid u s.devs = some x ∧ x.pc ≠ .done ∧ s'.devs = setDev x' s.devs ∧ x'.uid = x.uid ∧
+    x'.name = x.name ∧ NodeSame s s' ∧ DevEff s x s' x' o dec) ∨
+  (NodeSame s s' ∧ s'.devs = s.devs ∧ (∃ cs, s'.calls = s.calls ++ cs) ∧ ∀ ob ∈ o, UObs s ob)
+
+theorem runAct_eff {s s' : St} {a : Act} {o : List Obs} (h : runAct s a = some (s', o)) : StepEff s s' o := by
+  cases a with
+  | stim x =>
+    simp only [runAct, Option.some.injEq] at h
+    have := applyStim_eff s x
+    rw [h] at this
+    exact .inl this
+  | task t dec k =>
+    have hm : (s', o) ∈ step s t dec := List.mem_of_getElem? h
+    cases t with
+    | loop => exact .inl (.inl (stepLoop_eff hm))
+    | loopTimeout => exact .inl (.inl (stepLoopTimeout_eff hm))
+    | node => exact .inr (.inl (stepNode_eff hm))
+    | dev u =>
+      obtain ⟨x, x', h1, h2, h3, h4, h5, -, h7, h8⟩ := stepDev_eff hm
+      exact .inr (.inr (.inl ⟨u, dec, x, x', h1, h2, h3, h4, h5, h7, h8⟩))
+    | user j => exact .inr (.inr (.inr (stepUser_eff hm)))
+
+/-- lifting a one-step invariant to executions; `U` is a hypothesis on every visited state -/
+theorem run_inv {σ : Type} (U : St → Prop) (Inv : St → σ → Prop) (chk : σ → List Obs → Bool)
+    (aft : σ → List Obs → σ)
+    (happ : ∀ st a b, chk st (a ++ b) = (chk st a && chk (aft st a) b))
+    (haft : ∀ st a b, aft st (a ++ b) = aft (aft st a) b)
+    (hnil : ∀ st, chk st [] = true) (haft_nil : ∀ st, aft st [] = st)
+    (hstep : ∀ s st s' o, U s → Inv s st → StepEff s s' o → chk st o = true ∧ Inv s' (aft st o)) :
+    ∀ (acts : List Act) (s0 : St) (st0 : σ) (s : St) (tr : List Obs), Inv s0 st0 →
+      (∀ pre, pre <+: acts → ∀ s1 t1, runActs s0 pre = some (s1, t1) → U s1) →
+      runActs s0 acts = some (s, tr) → chk st0 tr = true ∧ Inv s (aft st0 tr) := by
+  intro acts
+  induction acts with
+  | nil =>
+    intro s0 st0 s tr hI _ h
+    simp only [runActs, Option.some.injEq, Prod.mk.injEq] at h
+    obtain ⟨rfl, rfl⟩ := h
+    exact ⟨hnil _, by rw [haft_nil]; exact hI⟩
+  | cons a as ih =>
+    intro s0 st0 s tr hI hU h
+    simp only [runActs] at h
+    split at h
+    · simp at h
+    rename_i s1 o1 ha
+    split at h
+    · simp at h
+    rename_i s2 o2 has
+    simp only [Option.some.injEq, Prod.mk.injEq] at h
+    obtain ⟨rfl, rfl⟩ := h
+    have hU0 : U s0 := hU [] (List.nil_prefix) s0 [] rfl
+    obtain ⟨hc1, hI1⟩ := hstep s0 st0 s1 o1 hU0 hI (runAct_eff ha)
+    have hU1 : ∀ pre, pre <+: as → ∀ s1' t1, runActs s1 pre = some (s1', t1) → U s1' := by
+      intro pre hp s1' t1 hr
+      refine hU (a :: pre) ((List.cons_prefix_cons).2 ⟨rfl, hp⟩) s1' (o1 ++ t1) ?_
+      simp [runActs, ha, hr]
+    obtain ⟨hc2, hI2⟩ := ih s1 (aft st0 o1) s2 o2 hI1 hU1 has
+    exact ⟨by rw [happ, hc1, hc2]; rfl, by rw [haft]; exact hI2⟩
+
+/-! ### C04 DDATA ordering: the invariant -/
+
+def WB (s : St) (st : DLife) (id : Nat) : Prop :=
+  (callRes s id = none → st = .pending id) ∧ (callRes s id = some true → st = .birthed)
+
+def PD (s : St) (st : DLife) (x : Dev) : Prop :=
+  x.epoch ≤ s.epoch ∧
+  (x.flag = true → x.epoch = s.epoch → st = .birthed) ∧
+  (∀ id ep, x.pc = .waitBirth id ep → ep ≤ s.epoch ∧ (ep = s.epoch → id < s.calls.length ∧ WB s st id)) ∧
+  (∀ ok ep, x.pc = .birthDone ok ep → ep ≤ s.epoch ∧ (ok = true → ep = s.epoch → st = .birthed))
+
+def InvD (d : Nat) (s : St) (st : DLife) : Prop :=
+  UidOk s.devs ∧ ∀ x ∈ s.devs, x.name = d → x.pc ≠ .done → PD s st x
+
+theorem core_eq {y y' : Dev} (h : core y = core y') :
+    y.uid = y'.uid ∧ y.name = y'.name ∧ y.pc = y'.pc ∧ y.flag = y'.flag ∧ y.epoch = y'.epoch := by
+  simpa [core] using h
+
+theorem callRes_append {s s' : St} {cs : List Call} (hc : s'.calls = s.calls ++ cs) {id : Nat}
+    (hid : id < s.calls.length) : callRes s' id = callRes s id := by
+  simp [callRes, hc, List.getElem?_append_left hid]
+
+theorem PD_mono {s s' : St} {st : DLife} {y y' : Dev} {cs : List Call} (hcore : core y = core y')
+    (he : s'.epoch = s.epoch) (hc : s'.calls = s.calls ++ cs) (h : PD s st y) : PD s' st y' := by
+  obtain ⟨-, -, hpc, hfl, hep⟩ := core_eq hcore
+  obtain ⟨h1, h2, h3, h4⟩ := h
+  rw [hfl, hep] at h2
+  rw [hep] at h1
+  rw [hpc] at h3 h4
+  refine ⟨by rw [he]; exact h1, by rw [he]; exact h2, ?_, by rw [he]; exact h4⟩
+  intro id ep hp
+  obtain ⟨h5, h6⟩ := h3 id ep hp
+  rw [he]
+  refine ⟨h5, fun h7 => ?_⟩
+  obtain ⟨h8, h9⟩ := h6 h7
+  refine ⟨by rw [hc]; simp; omega, ?_⟩
+  unfold WB at *
+  rw [callRes_append hc h8]
+  exact h9
+
+theorem PD_stale {s s' : St} {st st' : DLife} {y : Dev} (he : s'.epoch = s.epoch + 1) (h : PD s st y) :
+    PD s' st' y := by
+  obtain ⟨h1, h2, h3, h4⟩ := h
+  refine ⟨by omega, fun _ h => by omega, fun id ep hp => ⟨by have := (h3 id ep hp).1; omega, fun h => ?_⟩,
+    fun ok ep hp => ⟨by have := (h4 ok ep hp).1; omega, fun _ h => ?_⟩⟩
+  · have := (h3 id ep hp).1; omega
+  · have := (h4 ok ep hp).1; omega
+
+theorem dd_inert (d : Nat) (st : DLife) (o : List Obs)
+    (h : ∀ ob ∈ o, ddChk d st ob = true ∧ ddNext d st ob = st) :
+    ddataOk d st o = true ∧ ddAfter d st o = st := by
+  induction o with
+  | nil => simp [ddataOk, ddAfter]
+  | cons ob t ih =>
+    have h1 := h ob (by simp)
+    have h2 := ih (fun ob' hob => h ob' (by simp [hob]))
+    simp only [ddataOk_cons, ddAfter, List.foldl_cons, h1.1, h1.2, Bool.true_and]
+    exact h2
+
+theorem dd_of_inert (d : Nat) (st : DLife) (ob : Obs) (h : inert ob = true) :
+    ddChk d st ob = true ∧ ddNext d st ob = st := by
+  cases ob <;> simp [inert] at h <;> simp [ddChk, ddNext]
+
+theorem invD_quiet {d : Nat} {s s' : St} {st : DLife} {o : List Obs} (he : s'.epoch = s.epoch)
+    (hc : s'.calls = s.calls) (hq : DevsQ s.devs s'.devs) (hi : ∀ ob ∈ o, inert ob = true) (hI : InvD d s st) :
+    ddataOk d st o = true ∧ InvD d s' (ddAfter d st o) := by
+  obtain ⟨h1, h2⟩ := dd_inert d st o (fun ob hob => dd_of_inert d st ob (hi ob hob))
+  refine ⟨h1, hq.uidOk hI.1, ?_⟩
+  rw [h2]
+  intro y' hy' hn hp
+  obtain ⟨y, hy, hcore⟩ := hq.rel hy'
+  obtain ⟨-, hnm, hpc, -, -⟩ := core_eq hcore
+  exact PD_mono (cs := []) hcore he (by simp [hc]) (hI.2 y hy (by rw [hnm]; exact hn) (by rw [hpc]; exact hp))
+
+theorem invD_stim {d : Nat} {s s' : St} {st : DLife} {o : List Obs} (h : StimEff s s' o) (hI : InvD d s st) :
+    ddataOk d st o = true ∧ InvD d s' (ddAfter d st o) := by
+  rcases h with ⟨hn, hc, hq, hi⟩ | ⟨hn, hc, rfl, d', hd⟩ | ⟨hn, hd, id, ok, c, hcid, hres, hc, rfl⟩
+  · exact invD_quiet hn.1 hc hq hi hI
+  · refine ⟨by simp [ddataOk], ?_, ?_⟩
+    · rw [hd]; exact hI.1.append _ rfl
+    · simp only [ddAfter, List.foldl_nil]
+      intro y hy hnm hp
+      rw [hd] at hy
+      simp only [List.mem_append, List.mem_singleton] at hy
+      rcases hy with hy | rfl
+      · exact PD_mono (cs := []) rfl hn.1 (by simp [hc]) (hI.2 y hy hnm hp)
+      · refine ⟨by simp, by simp, by simp, by simp⟩
+  · refine ⟨by simp [ddataOk], by rw [hd]; exact hI.1, ?_⟩
+    simp only [ddAfter, List.foldl_cons, List.foldl_nil, ddNext]
+    intro y hy hnm hp
+    rw [hd] at hy
+    obtain ⟨h1, h2, h3, h4⟩ := hI.2 y hy hnm hp
+    have hne : ∀ {st : DLife}, st = .birthed →
+        (if (st == DLife.pending id) = true then if ok = true then DLife.birthed else DLife.none else st) = .birthed := by
+      intro st h; subst h; simp
+    have hcr : ∀ id', callRes s' id' = if id' = id then some ok else callRes s id' := by
+      intro id'
+      have hlt : id < s.calls.length := by
+        have := List.getElem?_eq_some_iff.1 hcid; exact this.1
+      simp only [callRes, hc, List.getElem?_set]
+      by_cases hid : id = id'
+      · subst hid; simp [hlt]
+      · have : ¬ id' = id := fun h => hid h.symm
+        simp [hid, this]
+    refine ⟨by rw [hn.1]; exact h1, fun hf he => hne (h2 hf (by rw [← hn.1]; exact he)), ?_, ?_⟩
+    · intro id' ep hpc
+      obtain ⟨h5, h6⟩ := h3 id' ep hpc
+      rw [hn.1]
+      refine ⟨h5, fun he => ?_⟩
+      obtain ⟨h7, h8, h9⟩ := h6 he
+      refine ⟨by simp [hc]; exact h7, ?_⟩
+      unfold WB
+      rw [hcr]
+      by_cases hid : id' = id
+      · subst hid
+        have hnone : callRes s id' = none := by simp [callRes, hcid, hres]
+        have := h8 hnone
+        subst this
+        cases ok <;> simp
+      · simp only [hid, if_false]
+        constructor
+        · intro hx; have := h8 hx; subst this; simp [hid]
+        · intro hx; exact hne (h9 hx)
+    · intro ok' ep hpc
+      obtain ⟨h5, h6⟩ := h4 ok' ep hpc
+      rw [hn.1]
+      exact ⟨h5, fun ho he => hne (h6 ho he)⟩
+
+theorem invD_node {d : Nat} {s s' : St} {st : DLife} {o : List Obs} (h : NodeEff s s' o) (hI : InvD d s st) :
+    ddataOk d st o = true ∧ InvD d s' (ddAfter d st o) := by
+  rcases h with ⟨he, -, -, hc, hd, hi, -, -⟩ | ⟨-, -, -, -, he, hd, -, c, dc, hc, rfl⟩ |
+    ⟨-, -, -, he, hc, hd, rfl⟩ | ⟨-, he, -, -, hd, -, c, bd, dc, hc, rfl⟩ | ⟨-, -, he, -, hc, hq, rfl⟩
+  · exact invD_quiet he hc (.inl hd) hi hI
+  · refine ⟨by simp [ddataOk], by rw [hd]; exact hI.1, ?_⟩
+    simp only [ddAfter, List.foldl_cons, List.foldl_nil, ddNext]
+    intro y hy hnm hp
+    rw [hd] at hy
+    exact PD_mono rfl he hc (hI.2 y hy hnm hp)
+  · exact invD_quiet he hc (.inr (.inr ⟨_, hd⟩)) (by simp) hI
+  · refine ⟨by simp [ddataOk], by rw [hd]; exact hI.1, ?_⟩
+    intro y hy hnm hp
+    rw [hd] at hy
+    exact PD_stale he (hI.2 y hy hnm hp)
+  · exact invD_quiet he hc hq (by simp) hI
+
+theorem invD_user {d : Nat} {s s' : St} {st : DLife} {o : List Obs}
+    (h : NodeSame s s' ∧ s'.devs = s.devs ∧ (∃ cs, s'.calls = s.calls ++ cs) ∧ ∀ ob ∈ o, UObs s ob)
+    (hI : InvD d s st) : ddataOk d st o = true ∧ InvD d s' (ddAfter d st o) := by
+  obtain ⟨hn, hd, ⟨cs, hc⟩, ho⟩ := h
+  have hob : ∀ ob ∈ o, ddChk d st ob = true ∧ ddNext d st ob = st := by
+    intro ob hm
+    rcases ho ob hm with hi | ⟨id, k, sq, bd, t, dc, rfl, hk⟩ | ⟨id, d', x, sq, bd, t, dc, rfl, hf, hfl, hep, -, -⟩
+    · exact dd_of_inert d st ob hi
+    · cases k <;> simp [ddChk, ddNext]
+    · simp only [ddChk, ddNext, and_true]
+      by_cases hdd : d' = d
+      · subst hdd
+        obtain ⟨hx, hnm, hp⟩ := findDev_some hf
+        have := (hI.2 x hx hnm hp).2.1 hfl hep
+        simp [this]
+      · simp [hdd]
+  obtain ⟨h1, h2⟩ := dd_inert d st o hob
+  refine ⟨h1, by rw [hd]; exact hI.1, ?_⟩
+  rw [h2]
+  intro y hy hnm hp
+  rw [hd] at hy
+  exact PD_mono rfl hn.1 hc (hI.2 y hy hnm hp)
+
+/-- a step of a device of another name is invisible to the scanner of `d` -/
+theorem devEff_other {d : Nat} {s s' : St} {x x' : Dev} {o : List Obs} {dec : Dec} (st : DLife)
+    (he : DevEff s x s' x' o dec) (hxd : x.name ≠ d) :
+    (∃ cs, s'.calls = s.calls ++ cs) ∧ ddataOk d st o = true ∧ ddAfter d st o = st := by
+  rcases he with ⟨hc, hi, -⟩ | ⟨-, -, -, -, -, -, -, c, n, hc, -, rfl⟩ | ⟨-, -, -, -, -, -, -, c, n, hc, rfl⟩ |
+    ⟨_, _, _, -, -, -, -, -, hc, rfl⟩ | ⟨_, _, -, -, -, hc, rfl⟩
+  · exact ⟨⟨[], by simp [hc]⟩, dd_inert d st o (fun ob hob => dd_of_inert d st ob (hi ob hob))⟩
+  · exact ⟨⟨_, hc⟩, by simp [ddataOk, hxd], by simp [ddAfter, ddNext, hxd]⟩
+  · exact ⟨⟨_, hc⟩, by simp [ddataOk, hxd], by simp [ddAfter, ddNext, hxd]⟩
+  · exact ⟨⟨[], by simp [hc]⟩, by simp [ddataOk], by simp [ddAfter]⟩
+  · exact ⟨⟨[], by simp [hc]⟩, by simp [ddataOk], by simp [ddAfter]⟩
+
+theorem devEff_self {s s' : St} {x x' : Dev} {o : List Obs} {dec : Dec} {st : DLife}
+    (he : DevEff s x s' x' o dec) (hep : s'.epoch = s.epoch) (hP : PD s st x) :
+    ddataOk x.name st o = true ∧ PD s' (ddAfter x.name st o) x' := by
+  obtain ⟨h1, h2, h3, h4⟩ := hP
+  rcases he with ⟨hc, hi, hfl, hxe, hpc⟩ | ⟨-, -, -, -, hfl, hxe, hpc, c, n, hc, hres, rfl⟩ |
+    ⟨-, -, -, -, hfl, hxe, hpc, c, n, hc, rfl⟩ |
+    ⟨id, ep, ok, hpc, hcr, hpc', hfl, hxe, hc, rfl⟩ | ⟨ok, ep, hpc, hpc', hif, hc, rfl⟩
+  · obtain ⟨h5, h6⟩ := dd_inert x.name st o (fun ob hob => dd_of_inert x.name st ob (hi ob hob))
+    refine ⟨h5, ?_⟩
+    rw [h6]
+    refine ⟨by omega, fun hf he => h2 (hfl hf) (by omega), ?_, ?_⟩
+    · intro id ep hp; rcases hpc with h | h | h <;> simp [h] at hp
+    · intro ok ep hp; rcases hpc with h | h | h <;> simp [h] at hp
+  · refine ⟨by cases dec <;> simp [ddataOk], ?_⟩
+    simp only [ddAfter, List.foldl_cons, List.foldl_nil, ddNext, beq_self_eq_true, if_true]
+    refine ⟨by omega, fun hf => by simp [hfl] at hf, ?_, ?_⟩
+    · intro id ep hp
+      cases dec <;> simp [birthPc, hpc] at hp
+      obtain ⟨rfl, rfl⟩ := hp
+      refine ⟨by omega, fun _ => ⟨by simp [hc], ?_⟩⟩
+      have : callRes s' s.calls.length = none := by simp [callRes, hc, hres, decRes]
+      simp [WB, this]
+    · intro ok ep hp
+      cases dec <;> simp [birthPc, hpc] at hp
+      · obtain ⟨rfl, rfl⟩ := hp; exact ⟨by omega, fun _ _ => rfl⟩
+      · obtain ⟨rfl, rfl⟩ := hp; exact ⟨by omega, fun h => by simp at h⟩
+  · refine ⟨by simp [ddataOk], ?_⟩
+    simp only [ddAfter, List.foldl_cons, List.foldl_nil, ddNext, beq_self_eq_true, if_true]
+    refine ⟨by omega, fun hf => by simp [hfl] at hf, ?_, ?_⟩
+    · intro id ep hp; rcases hpc with h | h | ⟨_, _, h⟩ <;> simp [h] at hp
+    · intro ok ep hp; rcases hpc with h | h | ⟨_, _, h⟩ <;> simp [h] at hp
+  · refine ⟨by simp [ddataOk], ?_⟩
+    simp only [ddAfter, List.foldl_nil]
+    obtain ⟨h5, h6⟩ := h3 id ep hpc
+    refine ⟨by omega, fun hf he => h2 (by rw [← hfl]; exact hf) (by omega), ?_, ?_⟩
+    · intro id' ep' hp; simp [hpc'] at hp
+    · intro ok' ep' hp
+      simp [hpc'] at hp
+      obtain ⟨rfl, rfl⟩ := hp
+      refine ⟨by omega, fun hok he => ?_⟩
+      subst hok
+      exact (h6 (by omega)).2.2 hcr
+  · refine ⟨by simp [ddataOk], ?_⟩
+    simp only [ddAfter, List.foldl_nil]
+    obtain ⟨h5, h6⟩ := h4 ok ep hpc
+    cases ok with
+    | true =>
+      simp at hif
+      refine ⟨by omega, fun _ he => h6 rfl (by omega), ?_, ?_⟩
+      · intro id' ep' hp; simp [hpc'] at hp
+      · intro ok' ep' hp; simp [hpc'] at hp
+    | false =>
+      simp at hif
+      refine ⟨by omega, fun hf he => h2 (by rw [← hif.1]; exact hf) (by omega), ?_, ?_⟩
+      · intro id' ep' hp; simp [hpc'] at hp
+      · intro ok' ep' hp; simp [hpc'] at hp
+
+theorem invD_dev {d : Nat} {s s' : St} {st : DLife} {o : List Obs} {u : Nat} {dec : Dec} {x x' : Dev}
+    (hU : Uniq d s.devs) (hI : InvD d s st) (hx : findUid u s.devs = some x) (hlive : x.pc ≠ .done)
+    (hd : s'.devs = setDev x' s.devs) (hu : x'.uid = x.uid) (hnm : x'.name = x.name) (hn : NodeSame s s')
+    (he : DevEff s x s' x' o dec) : ddataOk d st o = true ∧ InvD d s' (ddAfter d st o) := by
+  have hxm := (findUid_some hx).1
+  by_cases hxd : x.name = d
+  · subst hxd
+    obtain ⟨h1, h2⟩ := devEff_self he hn.1 (hI.2 x hxm rfl hlive)
+    refine ⟨h1, by rw [hd]; exact hI.1.setDev _, ?_⟩
+    intro y hy hyn hyp
+    rw [hd] at hy
+    rcases mem_setDev _ _ _ hI.1.nodup hy with rfl | ⟨hy1, hy2⟩
+    · exact h2
+    · have := hU.eq hy1 hxm hyn rfl hyp hlive
+      subst this
+      exact absurd hu.symm hy2
+  · obtain ⟨⟨cs, hc⟩, h1, h2⟩ := devEff_other st he hxd
+    refine ⟨h1, by rw [hd]; exact hI.1.setDev _, ?_⟩
+    rw [h2]
+    intro y hy hyn hyp
+    rw [hd] at hy
+    rcases mem_setDev_weak _ _ _ hy with rfl | hy1
+    · exact absurd (hnm.symm.trans hyn) hxd
+    · exact PD_mono rfl hn.1 hc (hI.2 y hy1 hyn hyp)
+
+theorem invD_step (d : Nat) (s : St) (st : DLife) (s' : St) (o : List Obs) (hU : Uniq d s.devs)
+    (hI : InvD d s st) (he : StepEff s s' o) : ddataOk d st o = true ∧ InvD d s' (ddAfter d st o) := by
+  rcases he with h | h | ⟨u, dec, x, x', h1, h2, h3, h4, h5, h6, h7⟩ | h
+  · exact invD_stim h hI
+  · exact invD_node h hI
+  · exact invD_dev hU hI h1 h2 h3 h4 h5 h6 h7
+  · exact invD_user h hI
+
+theorem ddata_ordered (cd : Nat) (acts : List Act) (s : St) (tr : List Obs) (d : Nat)
+    (h : runActs (init cd) acts = some (s, tr))
+    (hone : ∀ pre, pre <+: acts → ∀ s1 t1, runActs (init cd) pre = some (s1, t1) →
+        ((s1.devs.filter fun x => x.name == d && x.pc != .done).length ≤ 1)) :
+    ddataOk d .none tr = true := by
+  have hinit : InvD d (init cd) .none := ⟨by simp [init, UidOk], by simp [init]⟩
+  exact (run_inv (fun s => Uniq d s.devs) (InvD d) (ddataOk d) (ddAfter d) (fun st a b => ddataOk_append d a b st)
+    (fun st a b => by simp [ddAfter]) (fun st => by simp [ddataOk]) (fun st => rfl) (invD_step d)
+    acts (init cd) .none s tr hinit hone h).1
+
+/-! ### C04 DDEATH only after DBIRTH: the invariant -/
+
+def PE (s : St) (last : Bool) (x : Dev) : Prop :=
+  x.epoch ≤ s.epoch ∧
+  (x.flag = true → x.epoch = s.epoch → live s = true → last = true) ∧
+  (∀ id ep, x.pc = .waitBirth id ep → ep ≤ s.epoch ∧ (ep = s.epoch → live s = true → last = true)) ∧
+  (∀ ok ep, x.pc = .birthDone ok ep → ep ≤ s.epoch ∧ (ok = true → ep = s.epoch → live s = true → last = true))
+
+def InvE (d : Nat) (s : St) (last : Bool) : Prop :=
+  UidOk s.devs ∧ (s.birthed = true → s.online = true) ∧ (active s.node = true → s.online = true) ∧
+  ∀ x ∈ s.devs, x.name = d → x.pc ≠ .done → PE s last x
+
+theorem PE_mono {s s' : St} {last : Bool} {y y' : Dev} (hcore : core y = core y')
+    (he : s'.epoch = s.epoch) (hl : live s' = true → live s = true) (h : PE s last y) : PE s' last y' := by
+  obtain ⟨-, -, hpc, hfl, hep⟩ := core_eq hcore
+  obtain ⟨h1, h2, h3, h4⟩ := h
+  rw [hfl, hep] at h2
+  rw [hep] at h1
+  rw [hpc] at h3 h4
+  rw [← he] at h1 h2 h3 h4
+  exact ⟨h1, fun a b c => h2 a b (hl c), fun id ep hp => ⟨(h3 id ep hp).1, fun a b => (h3 id ep hp).2 a (hl b)⟩,
+    fun ok ep hp => ⟨(h4 ok ep hp).1, fun a b c => (h4 ok ep hp).2 a b (hl c)⟩⟩
+
+theorem PE_dead {s s' : St} {last last' : Bool} {y y' : Dev} (hcore : core y = core y')
+    (he : s'.epoch = s.epoch) (hl : live s' = false) (h : PE s last y) : PE s' last' y' := by
+  obtain ⟨-, -, hpc, hfl, hep⟩ := core_eq hcore
+  obtain ⟨h1, h2, h3, h4⟩ := h
+  rw [hep] at h1
+  rw [hpc] at h3 h4
+  rw [← he] at h1 h3 h4
+  exact ⟨h1, fun _ _ c => by simp [hl] at c, fun id ep hp => ⟨(h3 id ep hp).1, fun _ c => by simp [hl] at c⟩,
+    fun ok ep hp => ⟨(h4 ok ep hp).1, fun _ _ c => by simp [hl] at c⟩⟩
+
+theorem PE_stale {s s' : St} {last last' : Bool} {y : Dev} (he : s'.epoch = s.epoch + 1) (h : PE s last y) :
+    PE s' last' y := by
+  obtain ⟨h1, h2, h3, h4⟩ := h
+  refine ⟨by omega, fun _ h => by omega, fun id ep hp => ⟨by have := (h3 id ep hp).1; omega, fun h => ?_⟩,
+    fun ok ep hp => ⟨by have := (h4 ok ep hp).1; omega, fun _ h => ?_⟩⟩
+  · have := (h3 id ep hp).1; omega
+  · have := (h4 ok ep hp).1; omega
+
+theorem de_inert (d : Nat) (last : Bool) (o : List Obs)
+    (h : ∀ ob ∈ o, deChk d last ob = true ∧ deNext d last ob = last) :
+    ddeathOk d last o = true ∧ deAfter d last o = last := by
+  induction o with
+  | nil => simp [ddeathOk, deAfter]
+  | cons ob t ih =>
+    have h1 := h ob (by simp)
+    have h2 := ih (fun ob' hob => h ob' (by simp [hob]))
+    simp only [ddeathOk_cons, deAfter, List.foldl_cons, h1.1, h1.2, Bool.true_and]
+    exact h2
+
+theorem de_of_inert (d : Nat) (last : Bool) (ob : Obs) (h : inert ob = true) :
+    deChk d last ob = true ∧ deNext d last ob = last := by
+  cases ob <;> simp [inert] at h <;> simp [deChk, deNext]
+
+theorem isNb_active {n : NodePc} (h : isNb n = true) : active n = true := by
+  cases n <;> simp [isNb] at h <;> simp [active]
+
+theorem live_same {s s' : St} (h : NodeSame s s') : live s' = live s := by
+  simp [live, h.2.1, h.2.2.2]
+
+theorem invE_quiet {d : Nat} {s s' : St} {last : Bool} {o : List Obs} (he : s'.epoch = s.epoch)
+    (hl : live s' = true → live s = true) (h1' : s'.birthed = true → s'.online = true)
+    (h2' : active s'.node = true → s'.online = true)
+    (hq : DevsQ s.devs s'.devs) (hi : ∀ ob ∈ o, inert ob = true) (hI : InvE d s last) :
+    ddeathOk d last o = true ∧ InvE d s' (deAfter d last o) := by
+  obtain ⟨h1, h2⟩ := de_inert d last o (fun ob hob => de_of_inert d last ob (hi ob hob))
+  refine ⟨h1, hq.uidOk hI.1, h1', h2', ?_⟩
+  rw [h2]
+  intro y' hy' hn hp
+  obtain ⟨y, hy, hcore⟩ := hq.rel hy'
+  obtain ⟨-, hnm, hpc, -, -⟩ := core_eq hcore
+  exact PE_mono hcore he hl (hI.2.2.2 y hy (by rw [hnm]; exact hn) (by rw [hpc]; exact hp))
+
+theorem invE_same {d : Nat} {s s' : St} {last : Bool} {o : List Obs} (hn : NodeSame s s')
+    (hq : DevsQ s.devs s'.devs) (hi : ∀ ob ∈ o, inert ob = true) (hI : InvE d s last) :
+    ddeathOk d last o = true ∧ InvE d s' (deAfter d last o) :=
+  invE_quiet hn.1 (by rw [live_same hn]; exact id) (by rw [hn.2.1, hn.2.2.1]; exact hI.2.1)
+    (by rw [hn.2.2.2, hn.2.2.1]; exact hI.2.2.1) hq hi hI
+
+theorem invE_stim {d : Nat} {s s' : St} {last : Bool} {o : List Obs} (h : StimEff s s' o) (hI : InvE d s last) :
+    ddeathOk d last o = true ∧ InvE d s' (deAfter d last o) := by
+  rcases h with ⟨hn, hc, hq, hi⟩ | ⟨hn, hc, rfl, d', hd⟩ | ⟨hn, hd, cid, ok, c, hcid, hres, hc, rfl⟩
+  · exact invE_same hn hq hi hI
+  · refine ⟨by simp [ddeathOk], ?_, by rw [hn.2.1, hn.2.2.1]; exact hI.2.1,
+      by rw [hn.2.2.2, hn.2.2.1]; exact hI.2.2.1, ?_⟩
+    · rw [hd]; exact hI.1.append _ rfl
+    · simp only [deAfter, List.foldl_nil]
+      intro y hy hnm hp
+      rw [hd] at hy
+      simp only [List.mem_append, List.mem_singleton] at hy
+      rcases hy with hy | rfl
+      · exact PE_mono rfl hn.1 (by rw [live_same hn]; exact id) (hI.2.2.2 y hy hnm hp)
+      · refine ⟨by simp, by simp, by simp, by simp⟩
+  · refine ⟨by simp [ddeathOk], by rw [hd]; exact hI.1, by rw [hn.2.1, hn.2.2.1]; exact hI.2.1,
+      by rw [hn.2.2.2, hn.2.2.1]; exact hI.2.2.1, ?_⟩
+    simp only [deAfter, List.foldl_cons, List.foldl_nil, deNext]
+    intro y hy hnm hp
+    rw [hd] at hy
+    exact PE_mono rfl hn.1 (by rw [live_same hn]; exact id) (hI.2.2.2 y hy hnm hp)
+
+theorem invE_node {d : Nat} {s s' : St} {last : Bool} {o : List Obs} (h : NodeEff s s' o) (hI : InvE d s last) :
+    ddeathOk d last o = true ∧ InvE d s' (deAfter d last o) := by
+  obtain ⟨hu, i1, i2, hP⟩ := hI
+  rcases h with ⟨he, hb, hon, hc, hd, hi, hnb, hact⟩ | ⟨hon, hnode, hon', hb, he, hd, hnb, c, dc, hc, rfl⟩ |
+    ⟨hnode, hon', hb', he, hc, hd, rfl⟩ | ⟨hact, he, hb', hon, hd, hnb, c, bd, dc, hc, rfl⟩ |
+    ⟨hnb, hnode, he, hon, hc, hq, rfl⟩
+  · refine invE_quiet he ?_ (by rw [hb, hon]; exact i1) ?_ (.inl hd) hi ⟨hu, i1, i2, hP⟩
+    · simp only [live, hb, Bool.or_eq_true]
+      rintro (h | h)
+      · exact .inl h
+      · exact .inr (hnb h)
+    · intro h; rw [hon]; rcases hact h with h | h
+      · exact i2 h
+      · exact i1 h
+  · have hbf : s.birthed = false := by
+      cases hbb : s.birthed with
+      | false => rfl
+      | true => rw [i1 hbb] at hon; exact absurd hon (by simp)
+    have hl : live s' = false := by simp [live, hb, hbf, hnb]
+    refine ⟨by simp [ddeathOk], by rw [hd]; exact hu, fun _ => hon', fun _ => hon', ?_⟩
+    intro y hy hnm hp
+    rw [hd] at hy
+    exact PE_dead rfl he hl (hP y hy hnm hp)
+  · have hl : live s' = false := by simp [live, hb', hnode, isNb]
+    refine ⟨by simp [ddeathOk], by rw [hd]; exact hu.pushAll _, by simp [hb'], by simp [hnode, active], ?_⟩
+    intro y' hy' hnm hp
+    have hq : DevsQ s.devs s'.devs := .inr (.inr ⟨_, hd⟩)
+    obtain ⟨y, hy, hcore⟩ := hq.rel hy'
+    obtain ⟨-, hnm', hpc, -, -⟩ := core_eq hcore
+    exact PE_dead hcore he hl (hP y hy (by rw [hnm']; exact hnm) (by rw [hpc]; exact hp))
+  · refine ⟨by simp [ddeathOk], by rw [hd]; exact hu, by simp [hb'], fun _ => by rw [hon]; exact i2 hact, ?_⟩
+    intro y hy hnm hp
+    rw [hd] at hy
+    exact PE_stale he (hP y hy hnm hp)
+  · have hon2 : s.online = true := i2 (isNb_active hnb)
+    exact invE_quiet he (fun _ => by simp [live, hnb]) (fun _ => by rw [hon]; exact hon2)
+      (by simp [hnode, active]) hq (by simp) ⟨hu, i1, i2, hP⟩
+
+theorem invE_user {d : Nat} {s s' : St} {last : Bool} {o : List Obs}
+    (h : NodeSame s s' ∧ s'.devs = s.devs ∧ (∃ cs, s'.calls = s.calls ++ cs) ∧ ∀ ob ∈ o, UObs s ob)
+    (hI : InvE d s last) : ddeathOk d last o = true ∧ InvE d s' (deAfter d last o) := by
+  obtain ⟨hn, hd, -, ho⟩ := h
+  have hob : ∀ ob ∈ o, deChk d last ob = true ∧ deNext d last ob = last := by
+    intro ob hm
+    rcases ho ob hm with hi | ⟨id, k, sq, bd, t, dc, rfl, hk⟩ | ⟨id, d', x, sq, bd, t, dc, rfl, -⟩
+    · exact de_of_inert d last ob hi
+    · cases k <;> simp [deChk, deNext] at hk ⊢
+    · simp [deChk, deNext]
+  obtain ⟨h1, h2⟩ := de_inert d last o hob
+  refine ⟨h1, by rw [hd]; exact hI.1, by rw [hn.2.1, hn.2.2.1]; exact hI.2.1,
+      by rw [hn.2.2.2, hn.2.2.1]; exact hI.2.2.1, ?_⟩
+  rw [h2]
+  intro y hy hnm hp
+  rw [hd] at hy
+  exact PE_mono rfl hn.1 (by rw [live_same hn]; exact fun h => h) (hI.2.2.2 y hy hnm hp)
+
+theorem devEff_other_e {d : Nat} {s s' : St} {x x' : Dev} {o : List Obs} {dec : Dec} (last : Bool)
+    (he : DevEff s x s' x' o dec) (hxd : x.name ≠ d) :
+    ddeathOk d last o = true ∧ deAfter d last o = last := by
+  rcases he with ⟨hc, hi, -⟩ | ⟨-, -, -, -, -, -, -, c, n, hc, -, rfl⟩ | ⟨-, -, -, -, -, -, -, c, n, hc, rfl⟩ |
+    ⟨_, _, _, -, -, -, -, -, hc, rfl⟩ | ⟨_, _, -, -, -, hc, rfl⟩
+  · exact de_inert d last o (fun ob hob => de_of_inert d last ob (hi ob hob))
+  · exact ⟨by simp [ddeathOk, hxd], by simp [deAfter, deNext, hxd]⟩
+  · exact ⟨by simp [ddeathOk, hxd], by simp [deAfter, deNext, hxd]⟩
+  · exact ⟨by simp [ddeathOk], by simp [deAfter]⟩
+  · exact ⟨by simp [ddeathOk], by simp [deAfter]⟩
+
+theorem devEff_self_e {s s' : St} {x x' : Dev} {o : List Obs} {dec : Dec} {last : Bool}
+    (he : DevEff s x s' x' o dec) (hep : s'.epoch = s.epoch) (hl : live s' = live s) (hP : PE s last x) :
+    ddeathOk x.name last o = true ∧ PE s' (deAfter x.name last o) x' := by
+  obtain ⟨h1, h2, h3, h4⟩ := hP
+  rcases he with ⟨hc, hi, hfl, hxe, hpc⟩ | ⟨-, -, -, -, hfl, hxe, hpc, c, n, hc, hres, rfl⟩ |
+    ⟨hxf, hxep, -, hb, hfl, hxe, hpc, c, n, hc, rfl⟩ |
+    ⟨id, ep, ok, hpc, hcr, hpc', hfl, hxe, hc, rfl⟩ | ⟨ok, ep, hpc, hpc', hif, hc, rfl⟩
+  · obtain ⟨h5, h6⟩ := de_inert x.name last o (fun ob hob => de_of_inert x.name last ob (hi ob hob))
+    refine ⟨h5, ?_⟩
+    rw [h6]
+    refine ⟨by omega, fun hf he hv => h2 (hfl hf) (by omega) (by rw [← hl]; exact hv), ?_, ?_⟩
+    · intro id ep hp; rcases hpc with h | h | h <;> simp [h] at hp
+    · intro ok ep hp; rcases hpc with h | h | h <;> simp [h] at hp
+  · refine ⟨by simp [ddeathOk], ?_⟩
+    simp only [deAfter, List.foldl_cons, List.foldl_nil, deNext, beq_self_eq_true, if_true]
+    refine ⟨by omega, fun _ _ _ => rfl, ?_, ?_⟩
+    · intro id ep hp
+      cases dec <;> simp [birthPc, hpc] at hp
+      obtain ⟨rfl, rfl⟩ := hp
+      exact ⟨by omega, fun _ _ => rfl⟩
+    · intro ok ep hp
+      cases dec <;> simp [birthPc, hpc] at hp
+      · obtain ⟨rfl, rfl⟩ := hp; exact ⟨by omega, fun _ _ _ => rfl⟩
+      · obtain ⟨rfl, rfl⟩ := hp; exact ⟨by omega, fun _ _ _ => rfl⟩
+  · have hlast : last = true := h2 hxf hxep (by simp [live, hb])
+    refine ⟨by simp [ddeathOk, hlast], ?_⟩
+    simp only [deAfter, List.foldl_cons, List.foldl_nil, deNext, beq_self_eq_true, if_true]
+    refine ⟨by omega, fun hf => by simp [hfl] at hf, ?_, ?_⟩
+    · intro id ep hp; rcases hpc with h | h | ⟨_, _, h⟩ <;> simp [h] at hp
+    · intro ok ep hp; rcases hpc with h | h | ⟨_, _, h⟩ <;> simp [h] at hp
+  · refine ⟨by simp [ddeathOk], ?_⟩
+    simp only [deAfter, List.foldl_nil]
+    obtain ⟨h5, h6⟩ := h3 id ep hpc
+    refine ⟨by omega, fun hf he hv => h2 (by rw [← hfl]; exact hf) (by omega) (by rw [← hl]; exact hv), ?_, ?_⟩
+    · intro id' ep' hp; simp [hpc'] at hp
+    · intro ok' ep' hp
+      simp [hpc'] at hp
+      obtain ⟨rfl, rfl⟩ := hp
+      exact ⟨by omega, fun _ he hv => h6 (by omega) (by rw [← hl]; exact hv)⟩
+  · refine ⟨by simp [ddeathOk], ?_⟩
+    simp only [deAfter, List.foldl_nil]
+    obtain ⟨h5, h6⟩ := h4 ok ep hpc
+    cases ok with
+    | true =>
+      simp at hif
+      refine ⟨by omega, fun _ he hv => h6 rfl (by omega) (by rw [← hl]; exact hv), ?_, ?_⟩
+      · intro id' ep' hp; simp [hpc'] at hp
+      · intro ok' ep' hp; simp [hpc'] at hp
+    | false =>
+      simp at hif
+      refine ⟨by omega, fun hf he hv => h2 (by rw [← hif.1]; exact hf) (by omega) (by rw [← hl]; exact hv), ?_, ?_⟩
+      · intro id' ep' hp; simp [hpc'] at hp
+      · intro ok' ep' hp; simp [hpc'] at hp
+
+theorem invE_dev {d : Nat} {s s' : St} {last : Bool} {o : List Obs} {u : Nat} {dec : Dec} {x x' : Dev}
+    (hU : Uniq d s.devs) (hI : InvE d s last) (hx : findUid u s.devs = some x) (hlive : x.pc ≠ .done)
+    (hd : s'.devs = setDev x' s.devs) (hu : x'.uid = x.uid) (hnm : x'.name = x.name) (hn : NodeSame s s')
+    (he : DevEff s x s' x' o dec) : ddeathOk d last o = true ∧ InvE d s' (deAfter d last o) := by
+  have hxm := (findUid_some hx).1
+  have i1 : s'.birthed = true → s'.online = true := by rw [hn.2.1, hn.2.2.1]; exact hI.2.1
+  have i2 : active s'.node = true → s'.online = true := by rw [hn.2.2.2, hn.2.2.1]; exact hI.2.2.1
+  by_cases hxd : x.name = d
+  · subst hxd
+    obtain ⟨h1, h2⟩ := devEff_self_e he hn.1 (live_same hn) (hI.2.2.2 x hxm rfl hlive)
+    refine ⟨h1, by rw [hd]; exact hI.1.setDev _, i1, i2, ?_⟩
+    intro y hy hyn hyp
+    rw [hd] at hy
+    rcases mem_setDev _ _ _ hI.1.nodup hy with rfl | ⟨hy1, hy2⟩
+    · exact h2
+    · have := hU.eq hy1 hxm hyn rfl hyp hlive
+      subst this
+      exact absurd hu.symm hy2
+  · obtain ⟨h1, h2⟩ := devEff_other_e last he hxd
+    refine ⟨h1, by rw [hd]; exact hI.1.setDev _, i1, i2, ?_⟩
+    rw [h2]
+    intro y hy hyn hyp
+    rw [hd] at hy
+    rcases mem_setDev_weak _ _ _ hy with rfl | hy1
+    · exact absurd (hnm.symm.trans hyn) hxd
+    · exact PE_mono rfl hn.1 (by rw [live_same hn]; exact fun h => h) (hI.2.2.2 y hy1 hyn hyp)
+
+theorem invE_step (d : Nat) (s : St) (last : Bool) (s' : St) (o : List Obs) (hU : Uniq d s.devs)
+    (hI : InvE d s last) (he : StepEff s s' o) : ddeathOk d last o = true ∧ InvE d s' (deAfter d last o) := by
+  rcases he with h | h | ⟨u, dec, x, x', h1, h2, h3, h4, h5, h6, h7⟩ | h
+  · exact invE_stim h hI
+  · exact invE_node h hI
+  · exact invE_dev hU hI h1 h2 h3 h4 h5 h6 h7
+  · exact invE_user h hI
+
+theorem ddeath_after_dbirth (cd : Nat) (acts : List Act) (s : St) (tr : List Obs) (d : Nat)
+    (h : runActs (init cd) acts = some (s, tr))
+    (hone : ∀ pre, pre <+: acts → ∀ s1 t1, runActs (init cd) pre = some (s1, t1) →
+        ((s1.devs.filter fun x => x.name == d && x.pc != .done).length ≤ 1)) :
+    ddeathOk d false tr = true := by
+  have hinit : InvE d (init cd) false :=
+    ⟨by simp [init, UidOk], by simp [init], by simp [init, active], by simp [init]⟩
+  exact (run_inv (fun s => Uniq d s.devs) (InvE d) (ddeathOk d) (deAfter d) (fun st a b => ddeathOk_append d a b st)
+    (fun st a b => by simp [deAfter]) (fun st => by simp [ddeathOk]) (fun st => rfl) (invE_step d)
+    acts (init cd) false s tr hinit hone h).1
 
 end Srad.Eon.P04
